@@ -1,53 +1,147 @@
 (* The theorems about kind inference instantiated at the configuration read off the working
-   tree (gen_cfg, from coq/gen/GenC14.v).  The premises on the shape switches are discharged in
-   props/C14.v by reflexivity; the refutations carry the defective value of the switch as premise. *)
+   tree (gen_cfg_with extra: the base function registry of /repo extended by any user functions
+   registered through register_ode_rhs / register_function; switches from coq/gen/GenC14.v).
+   The premises on the shape switches are discharged in props/C14.v by reflexivity, except the
+   two whose repair is pending, which stay premises there; the refutations carry the defective
+   value of the switch as premise. *)
 From Coq Require Import List String Bool Arith Permutation.
 Import ListNotations.
-From Dagrt Require Import GenC14 Unify UnifyProofs KindOrder KindInfer KindInferCfg KindInferProofs
-  KindTableProofs KindFinderProofs KindFinderFull KindFinderExamples.
+From Dagrt Require Import GenC14 Unify UnifyProofs KindOrder KindInfer KindInferCfg KindRegistryProofs
+  KindInferProofs KindTableProofs KindFinderProofs KindFinderFull KindFinderExamples.
 Open Scope string_scope.
 
+(* every class named by the translator has a mirror in the model: no built-in is dropped *)
+Lemma builtin_classes_known :
+  forallb (fun f => match rk_of_class (snd f) with Some _ => true | None => false end) builtin_facts = true.
+Proof. vm_compute. reflexivity. Qed.
+
+Lemma base_registry_complete : List.length base_registry = List.length builtin_facts.
+Proof. vm_compute. reflexivity. Qed.
+
 (* every name preset in SymbolKindTable.__init__ is a state variable for is_state_variable *)
-Lemma gen_cfg_init_ok : forall x, In x (c_init_global gen_cfg) -> c_is_state gen_cfg x = true.
+Lemma cfg_of_init_ok : forall ui ai ic sr pp rs ao extra x,
+  In x (c_init_global (cfg_of ui ai ic sr pp rs ao extra)) ->
+  c_is_state (cfg_of ui ai ic sr pp rs ao extra) x = true.
 Proof.
-  cbn [c_init_global c_is_state gen_cfg]. unfold init_global_names.
-  intros x H. repeat (destruct H as [<-|H]; [reflexivity|]). destruct H.
+  intros ui ai ic sr pp rs ao extra x. cbn [c_init_global c_is_state cfg_of]. unfold init_global_names.
+  intros H. repeat (destruct H as [<-|H]; [reflexivity|]). destruct H.
 Qed.
 
 Theorem gen_order_independent_partial :
   unify_usertype_accepts_int = true -> unify_array_accepts_int = true ->
-  set_insert_marks_changed = true ->
-  forall fuel fuel' forced all all' T T',
+  set_insert_marks_changed = true -> builtins_require_arrays = true ->
+  forall extra fuel fuel' forced all all' T T',
     Permutation all all' ->
     (forall it, In it all -> wf_item it) ->
     (forall p x k, In (p, x, k) forced -> k <> None) ->
-    run_queue gen_cfg fuel forced all = OTable T false ->
-    run_queue gen_cfg fuel' forced all' = OTable T' false ->
+    run_queue (gen_cfg_with extra) fuel forced all = OTable T false ->
+    run_queue (gen_cfg_with extra) fuel' forced all' = OTable T' false ->
     table_equiv T T'.
 Proof.
-  intros H1 H2 H3. apply order_independent_partial; try assumption. apply gen_cfg_init_ok.
+  intros H1 H2 H3 H4 extra. apply order_independent_partial; try assumption. apply cfg_of_init_ok.
 Qed.
 
 Theorem gen_order_independent :
   unify_usertype_accepts_int = true -> unify_array_accepts_int = true ->
   set_insert_marks_changed = true -> set_reraises = true -> loop_variables_prepass = true ->
-  full_statement gen_cfg.
+  finder_restarts_after_change = true -> builtins_require_arrays = true ->
+  forall extra, full_statement (gen_cfg_with extra).
 Proof.
-  intros H1 H2 H3 H4 H5. unfold full_statement.
-  apply order_independent; try assumption. apply gen_cfg_init_ok.
+  intros H1 H2 H3 H4 H5 H6 H7 extra. unfold full_statement.
+  apply order_independent; try assumption. apply cfg_of_init_ok.
 Qed.
 
-(* without the up-front registration of loop variables the full statement is false, whatever
-   the other switches are *)
-Theorem gen_full_statement_refuted : loop_variables_prepass = false -> ~ full_statement gen_cfg.
+Theorem gen_infer_kinds_phase_order :
+  unify_usertype_accepts_int = true -> unify_array_accepts_int = true ->
+  set_insert_marks_changed = true -> set_reraises = true -> loop_variables_prepass = true ->
+  finder_restarts_after_change = true -> builtins_require_arrays = true ->
+  infer_kinds_zips_dict_order = true ->
+  forall extra, glue_statement (gen_cfg_with extra).
 Proof.
-  intros Hp H.
-  specialize (H 10 10 [] [wX; wY] [wY; wX] (perm_swap _ _ _)).
-  assert (Hwf : forall it, In it [wX; wY] -> wf_item it) by (intros it [<-|[<-|[]]]; reflexivity).
-  assert (Hf : forall (p x : string) (k : okind), In (p, x, k) [] -> k <> None) by (intros p x k []).
+  intros H1 H2 H3 H4 H5 H6 H7 _ extra. unfold glue_statement.
+  apply infer_kinds_phase_order; try assumption. apply cfg_of_init_ok.
+Qed.
+
+Theorem gen_registry_monotone :
+  builtins_require_arrays = true ->
+  forall sg vals vals' kwn, Forall2 wle vals vals' ->
+    krel (call_kinds builtins_require_arrays sg vals kwn) (call_kinds builtins_require_arrays sg vals' kwn).
+Proof. intros ->. exact call_kinds_mono. Qed.
+
+(* ------------------------------------------------------------------ refutations per defect shape *)
+
+Local Ltac refute H all all' perm :=
+  specialize (H 10 10 [] all all' perm);
+  let Hwf := fresh "Hwf" in
+  assert (Hwf : forall it, In it all -> wf_item it)
+    by (intros it Hin; repeat (destruct Hin as [<-|Hin]; [reflexivity|]); destruct Hin);
+  let Hf := fresh "Hf" in
+  assert (Hf : forall (p x : string) (k : okind), In (p, x, k) [] -> k <> None) by (intros p x k []);
   specialize (H Hwf Hf).
-  unfold run_queue in H. cbn [c_loops_prepass gen_cfg] in H. rewrite Hp in H.
-  vm_compute in H. apply H; discriminate.
+
+(* without the up-front registration of loop variables (and without the restart) the full
+   statement is false, whatever the other switches are *)
+Lemma cfg_loop_variable_refuted : forall ui ai ic sr ao, ~ full_statement (cfg_of ui ai ic sr false false ao []).
+Proof.
+  intros ui ai ic sr ao H. refute H [wX; wY] [wY; wX] (perm_swap wY wX []).
+  destruct ui, ai, ic, sr, ao; vm_compute in H; apply H; discriminate.
+Qed.
+
+Theorem gen_full_statement_refuted :
+  loop_variables_prepass = false -> finder_restarts_after_change = false ->
+  ~ (forall extra, full_statement (gen_cfg_with extra)).
+Proof.
+  intros Hp Hr H. specialize (H []). unfold gen_cfg_with in H. rewrite Hp, Hr in H.
+  exact (cfg_loop_variable_refuted _ _ _ _ _ H).
+Qed.
+
+(* the work-list loop gives up although the table changed during the pass *)
+Lemma cfg_gives_up_early_refuted : forall ao, ~ full_statement (cfg_of true true true true true false ao []).
+Proof.
+  intros ao H. refute H [wW; wXi; wAbs] [wXi; wW; wAbs] (perm_swap wXi wW [wAbs]).
+  destruct ao; vm_compute in H; apply H; discriminate.
+Qed.
+
+Theorem gen_gives_up_early_refuted :
+  unify_usertype_accepts_int = true -> unify_array_accepts_int = true ->
+  set_insert_marks_changed = true -> set_reraises = true -> loop_variables_prepass = true ->
+  finder_restarts_after_change = false ->
+  ~ (forall extra, full_statement (gen_cfg_with extra)).
+Proof.
+  intros H1 H2 H3 H4 H5 H6 H. specialize (H []). unfold gen_cfg_with in H.
+  rewrite H1, H2, H3, H4, H5, H6 in H. exact (cfg_gives_up_early_refuted _ H).
+Qed.
+
+(* matmul accepts the Scalar below a UserType it refuses *)
+Definition rhs_f : registry := [("<func>f", rhs_sig "u" ["u"])].
+
+Lemma cfg_scalar_matrix_refuted : forall pp rs,
+  ~ full_statement (cfg_of true true true true pp rs false rhs_f).
+Proof.
+  intros pp rs H.
+  assert (Hperm : Permutation [wA1; wA2; wMM] [wA2; wMM; wA1]).
+  { change [wA2; wMM; wA1] with (List.app [wA2; wMM] [wA1]). apply Permutation_cons_append. }
+  refute H [wA1; wA2; wMM] [wA2; wMM; wA1] Hperm.
+  destruct pp, rs; vm_compute in H;
+    specialize (H ltac:(discriminate) ltac:(discriminate) (Some "p", "s")); vm_compute in H; discriminate.
+Qed.
+
+Theorem gen_scalar_matrix_refuted :
+  unify_usertype_accepts_int = true -> unify_array_accepts_int = true ->
+  set_insert_marks_changed = true -> set_reraises = true ->
+  builtins_require_arrays = false ->
+  ~ (forall extra, full_statement (gen_cfg_with extra)).
+Proof.
+  intros H1 H2 H3 H4 H7 H. specialize (H rhs_f). unfold gen_cfg_with in H.
+  rewrite H1, H2, H3, H4, H7 in H. exact (cfg_scalar_matrix_refuted _ _ H).
+Qed.
+
+Theorem gen_registry_monotone_refuted :
+  builtins_require_arrays = false ->
+  ~ (forall sg vals vals' kwn, Forall2 wle vals vals' ->
+       krel (call_kinds builtins_require_arrays sg vals kwn) (call_kinds builtins_require_arrays sg vals' kwn)).
+Proof.
+  intros -> H. destruct matmul_not_mono_refuted as [Hle Hn]. apply Hn. apply H. exact Hle.
 Qed.
 
 Theorem gen_unify_comm :
